@@ -6,6 +6,7 @@ package pgcheck
 
 import (
 	"bytes"
+	"errors"
 	"encoding/binary"
 	"fmt"
 	"regexp"
@@ -190,6 +191,10 @@ func (rn *Runner) Run(stmts []Stmt) (viol []Violation, state string, harness str
 	step := func(ps *sess.PGSession, st Stmt, reference *sess.PGDB, role string) bool {
 		res, err := ps.Step(st.Msgs, prot.Respond)
 		rn.R.Transitions(1)
+		if errors.Is(err, sess.ErrMalformed) {
+			add(st.Kind+"/"+role+"/malformed-message", "the independent codec cannot decode what the proxy emitted: %v", err)
+			return false
+		}
 		if err != nil {
 			harness = fmt.Sprintf("%s %s: %v", role, st.Kind, err)
 			return false
